@@ -20,6 +20,18 @@ int main(int argc, char **argv) {
   std::string path = (dir / "store.bin").string();
   KVStoreConfig cfg; cfg.enableBackgroundCompaction = false;
   std::string verdict;
+  if (in.count("MAXKEY")) {
+    // W1..W4: a key of exactly MAX_KEY_LENGTH bytes is accepted by set(); its records must be accepted by the replay
+    try {
+      std::string k(MAX_KEY_LENGTH, 'k');
+      { KVStore s(path, cfg); s.set(k, V("v")); s.set("other", V("o")); }
+      { KVStore s(path, cfg); auto v = s.get(k); if (!v || *v != V("v")) verdict += " key of MAX_KEY_LENGTH bytes MISSING after restart;"; if (!s.get("other")) verdict += " other MISSING;"; }
+    } catch (const std::exception &e) { verdict = std::string(" store threw: ") + e.what(); }
+    fs::remove_all(dir);
+    if (!verdict.empty()) replay_io::fail("W1 set(key of MAX_KEY_LENGTH bytes) acknowledged; clean close; reopen =>" + verdict);
+    replay_io::ok("a maximum-length key survives a restart");
+    return 0;
+  }
   if (in.count("BIG")) {
     // K6 / RT1: every record the writer can produce must be accepted by the reader - the largest value validateKeyValue admits
     try {
